@@ -450,6 +450,25 @@ func runRace(t *rapid.T) {
 			w.failf("C10/panic", "panic in %s: %v\n%s", g.Name, g.Panic, g.PanicStack)
 		}
 	}
+	// the library's own goroutines must be gone when Suspend/Fini hand the
+	// terminal back: nothing they write may reach it between Stop and Start
+	if w.tty != nil && w.sim == nil {
+		started := false
+		for _, c := range w.tty.Log {
+			switch c.Kind {
+			case "Start":
+				if !c.Err {
+					started = true
+				}
+			case "Stop":
+				started = false
+			case "Write":
+				if !started && strings.HasPrefix(c.G, "tscreen.go:") {
+					w.failf("C10/write-after-stop", "tty call #%d: the library's goroutine %s writes %d bytes to a terminal the screen has stopped (Suspend/Fini returned it)", c.At, c.G, c.N)
+				}
+			}
+		}
+	}
 	faults := map[string]int{"preempt_in_critical_section": s.Counters["select_multi_ready"]}
 	if w.tty != nil {
 		for k, v := range w.tty.Faults.Map() {
